@@ -8,3 +8,5 @@ import SJ.Props.Typed
 #print axioms SJ.Props.C10.c10_prefix_value_exact
 #print axioms SJ.Props.C10.c10_number_exception
 #print axioms SJ.Props.C10.c10_prefix_value_ap
+#print axioms SJ.Props.C10.c10_stream_prefix_partial
+#print axioms SJ.Props.C10.c10_stream_prefix_ignored
